@@ -108,7 +108,7 @@ EditCalls ==
   \cup {[C("AttrDel") EXCEPT !.n = n, !.name = "alpha"] : n \in EN}
   \cup {[C("GraphMetaPut") EXCEPT !.g = g, !.name = "k2"] : g \in G}
   \cup {[C("SetConst") EXCEPT !.v = v, !.flag = f] : v \in EV \cap {2, 3, 5}, f \in BOOLEAN}
-  \cup {[C("SetTensor") EXCEPT !.v = v, !.name = k] : v \in EV \cap {2, 3}, k \in {"np", "lazy", "packed", "proto", "string"}}
+  \cup {[C("SetTensor") EXCEPT !.v = v, !.name = k] : v \in EV \cap {2, 3}, k \in {"np", "lazy", "packed", "proto", "string", "npT"}}
   \cup {[C("AttachSub") EXCEPT !.n = n, !.g = g] : n \in EN \cap {1, 2}, g \in {2, 3}}
 
 Calls == {c \in EditCalls : c.op \in Focus}
